@@ -595,6 +595,66 @@ func runC05(c *Ctx) error {
 		}
 		p.close()
 	}
+	// ... also while the receiving side keeps sending traffic of its own: what the writer does must
+	// not keep a link alive whose incoming direction delivers nothing any more
+	{
+		p, err := newLinkedPair(relayStore, relayStore, nil, nil)
+		if err != nil {
+			return err
+		}
+		stop := make(chan struct{})
+		go func() { // A's handler takes what B sends
+			for {
+				select {
+				case f := <-p.A.peerIn:
+					f.ReturnToPool()
+				case <-stop:
+					return
+				}
+			}
+		}()
+		go func() { // B's own traffic
+			for k := 0; ; k++ {
+				select {
+				case <-stop:
+					return
+				default:
+				}
+				f, err := p.B.builder.NewFrameV1(p.B.id.IP, p.A.id.IP, frame.NetworkTraffic, nil, []byte("traffic of the receiving side"), nil)
+				if err != nil {
+					return
+				}
+				if err := p.lb.Send(f); err != nil {
+					f.ReturnToPool()
+					return
+				}
+				time.Sleep(300 * time.Microsecond)
+			}
+		}()
+		g := []byte{0, 30}
+		g = append(g, make([]byte, 28)...)
+		bad := 0
+		closed := false
+		for ; bad < 3000 && !closed; bad++ {
+			if _, err := p.connA.Write(g); err != nil {
+				closed = true
+				break
+			}
+			time.Sleep(100 * time.Microsecond)
+			closed = p.lb.IsClosing()
+		}
+		for t0 := time.Now(); !closed && time.Since(t0) < time.Second; time.Sleep(5 * time.Millisecond) {
+			closed = p.lb.IsClosing()
+		}
+		close(stop)
+		c.Eval()
+		c.Count("fault:bad-frames-while-receiver-sends")
+		c.NonTrivial("bad-frames-while-receiver-sends")
+		if !closed {
+			c.Violate(fmt.Sprintf("the link did not close after %d consecutive unauthenticated frames while the receiving side kept sending its own traffic", bad), "no-close-while-sending", map[string]any{"bad_frames": bad})
+		}
+		p.close()
+	}
 	if err := c05ForgedRolloverNearWrap(c); err != nil {
 		return err
 	}
